@@ -963,9 +963,21 @@ impl Value {
                     None => Value::undefined(),
                 })
             }
-            _ => Ok(Value {
-                inner: ValueInner::Undefined,
-            }),
+            // Nothing to look up in a scalar, but the index still has to be a string or an integer
+            // like for the containers
+            _ => match item.inner {
+                ValueInner::String(..)
+                | ValueInner::U64(_)
+                | ValueInner::I64(_)
+                | ValueInner::U128(_)
+                | ValueInner::I128(_) => Ok(Value {
+                    inner: ValueInner::Undefined,
+                }),
+                _ => Err(Error::message(format!(
+                    "Only strings and integers can be used as index, got `{}`.",
+                    item.name()
+                ))),
+            },
         }
     }
 
